@@ -48,7 +48,13 @@ META = dict(
 
 def init(ck):
     import nifty.cl as ift
+    import logging
     ck.state["ift"] = ift
+    logging.getLogger("NIFTy").setLevel(logging.ERROR)     # 'non-harmonic space' warnings of power_analyze
+    try:
+        ift.logger.setLevel(logging.ERROR)
+    except Exception:
+        pass
 
 
 def gen_config(rng):
@@ -58,10 +64,10 @@ def gen_config(rng):
     space = 0
     nextra = int(rng.integers(0, 3))
     for _ in range(nextra):
-        c = int(rng.integers(0, 3))
+        c = int(rng.integers(0, 5))
         if c == 0:
             e = dict(t="U", shape=[int(rng.integers(1, 4))])
-        elif c == 1:
+        elif c in (1, 2):
             e = dict(t="RG", shape=[int(rng.integers(1, 4))], dist=None, harmonic=False)
         else:
             e = dict(t="GL", nlat=int(rng.integers(1, 3)), nlon=None)
@@ -270,7 +276,7 @@ def case(ck, i):
     try:
         cplx = analyze_section(ck, ift, rng, hdom, pdom, ds, space, bb, pidx, nbin, cnt, D, pre, post, w)
     except AttributeError as e:
-        if not (has_u and "harmonic" in str(e)):
+        if not (has_u and ("harmonic" in str(e) or "dvol" in str(e))):
             raise
         ck.violation("power_analyze:unstructured-factor-crash", "power_analyze crashes when the product "
                      "domain contains an UnstructuredDomain next to the analysed harmonic space",
